@@ -393,6 +393,66 @@ namespace hgvc
         J("w").i("t", k).raw("o", render(root)).emit();
     }
 
+    long next_part_time(long part, long after_k)
+    {
+        for (auto &[t, ops] : g_scn->script)
+        {
+            if (t <= after_k) { continue; }
+            for (auto &op : ops)
+            {
+                if (!op.path.empty() && op.path[0] == part) { return t; }
+            }
+        }
+        return 0;
+    }
+
+    void run_part_ops(long part, const TSOutputView &out, DateTime now)
+    {
+        auto it = g_scn->script.find(to_k(now));
+        if (it == g_scn->script.end()) { return; }
+        for (const auto &op : it->second)
+        {
+            if (op.path.empty() || op.path[0] != part) { continue; }
+            Op sub = op;
+            sub.path.erase(sub.path.begin());
+            try
+            {
+                (void)do_op(out, sub, now);
+            }
+            catch (const std::exception &e)
+            {
+                J("operr").i("t", to_k(now)).str("op", op.verb).str("msg", e.what()).emit();
+            }
+        }
+    }
+
+    void log_script(DateTime now)
+    {
+        auto it = g_scn->script.find(to_k(now));
+        if (it == g_scn->script.end()) { return; }
+        std::string ops = "[";
+        for (size_t i = 0; i < it->second.size(); ++i)
+        {
+            if (i) { ops += ","; }
+            ops += op_json(it->second[i], 1);
+        }
+        J("ops").i("t", to_k(now)).raw("ops", ops + "]").emit();
+    }
+
+    void run_activity(long id, const TSInputView &x, DateTime now)
+    {
+        auto it = g_scn->activity.find(to_k(now));
+        if (it == g_scn->activity.end()) { return; }
+        for (const auto &op : it->second)
+        {
+            if (op.args.size() > 1 && op.args[1] != id) { continue; }      // optional second argument: only this probe
+            auto child = x.indexed_child_at(static_cast<std::size_t>(op.args.at(0)));
+            if (op.verb == "act") { child.make_active(); }
+            else if (op.verb == "pas") { child.make_passive(); }
+            J("act").i("id", id).i("t", to_k(now)).str("op", op.verb).i("i", op.args.at(0)).i("now", child.active() ? 1 : 0).emit();
+        }
+    }
+
     void log_probe(long id, long graph, const TSInputView &x, DateTime now)
     {
         J j("p");
@@ -517,6 +577,14 @@ int main(int, char **)
             std::vector<Op> ops;
             for (size_t i = 2; i < l.pos.size(); ++i) { ops.push_back(parse_op(l.pos[i])); }
             scn->script[t] = ops;
+        }
+        else if (cmd == "a")
+        {
+            // a <t> act::<i> pas::<i> ...   activity changes of child links of the un-peered probe inputs
+            const long      t = std::stol(l.pos.at(1));
+            std::vector<Op> ops;
+            for (size_t i = 2; i < l.pos.size(); ++i) { ops.push_back(parse_op(l.pos[i])); }
+            scn->activity[t] = ops;
         }
         else if (cmd == "run")
         {
